@@ -21,7 +21,7 @@ var identsASCII = []string{"a", "x", "c", "C", "py", "r", "i", "e", "p", "_", "x
 var identsUni = []string{"é", "世界", "Ω", "ǅ", "aé", "é1", "x٣", "٣x", "а", "ñandú", "x́", "́", "ｘ", "日本語", "𝑥", "x𝟘", "₁"}
 
 var numbers = []string{"0", "1", "7", "42", "1234567890", "1_000", "1__0", "1_", "0_1", "0_", "00", "007", "08", "09", "0128", "089i", "09.5", "08e1",
-	"0x1F", "0X1f", "0x", "0x_1", "0x1_", "0_x1", "0xg", "0x1.8p1", "0x1.8", "0x.p1", "0x.8p-2", "0x1p", "0x1p+", "0x1p-2", "0x1e1", "0x1P3", "0xep1",
+	"0x1F", "0X1f", "0x", "0x1_0.8", "0x_1.8", "0x1.8_", "0x1_.8", "0X1_F.p1", "0x1._8p1", "0b1_0.1", "0o1_7.5", "1_0.5e1_0", "1_0e_1", "0x1_0p1_0", "0_8", "0_9.5", "0__7", "0x_1", "0x1_", "0_x1", "0xg", "0x1.8p1", "0x1.8", "0x.p1", "0x.8p-2", "0x1p", "0x1p+", "0x1p-2", "0x1e1", "0x1P3", "0xep1",
 	"0b101", "0B1", "0b2", "0b12", "0b", "0b1.0", "0b1e1", "0b_1", "0o17", "0O7", "0o8", "0o", "0o1e1", "0o1.5", "0o1p1",
 	"1.", ".5", "1.5", "1.5.5", "1..2", "1e10", "1E+5", "1e-3", "1e", "1e+", "1e_1", "1e1_", "1_e1", "1._5", "1.5_", ".5e1", "1p1", "1.5p2", "0e0", "0.0",
 	"1i", "0i", "1.5i", "0x1i", "1e1i", "0b1i", "08i", "1i2", "1if", "1ix", "1r", "1.5r", "0x1r", "1r2", "1rx", "2ri",
